@@ -242,7 +242,9 @@ def check_block_roundtrip(ctx, oid):
         return
     want_h = {"version": hf["version"], "prev_blockheaderhash": tm.hexs(hf["prev_blockheaderhash"]), "merkle_root_hash": tm.hexs(hf["merkle_root_hash"]),
               "nTime": hf["ntime"], "nBits": tm.hexs(hf["nBits"]), "nNonce": hf["nNonce"]}
-    shapes = [[([0], [22], None)], [([4], [22, 38], [[32]]), ([0], [22], [[72, 33]]), ([107], [25], None)], [([1], [1], None)] * 5]
+    shapes = [[([0], [22], None)], [([4], [22, 38], [[32]]), ([0], [22], [[72, 33]]), ([107], [25], None)], [([1], [1], None)] * 5,
+              # transactions far larger than any "typical" size, followed by another one (no fixed parsing window)
+              [([0], [150000], None), ([1], [22], None)], [([0], [22], [[120000, 33]]), ([107], [25], None)]]
     if ctx.thorough:
         shapes += [[([1], [1], None)] * 253, [([0], [22], [[253]]), ([253], [65536], None)], [([0, 0], [22], [[], [71, 33]])] * 50]
     n = 0
